@@ -553,6 +553,13 @@ func scenC07(r *Run, judged bool) {
 	// run from C09's plan, the same sessions judge what is listed around the highlighted item
 	// (C09 at the level of the screen); everything else is C07's.
 	viol := func(kind, detail string) {
+		if r.Job.Prop == "C20" {
+			// run from C20's plan, the same sessions judge which link a number hands to the hook
+			if strings.HasPrefix(kind, "hook-") {
+				r.Violate("C20", "argv", kind, detail)
+			}
+			return
+		}
 		if r.Job.Prop == "C09" {
 			switch {
 			case strings.HasPrefix(kind, "wrong-item-"), strings.HasPrefix(kind, "unexpected-item-"), strings.HasPrefix(kind, "missing-item-"),
